@@ -78,7 +78,7 @@ def _imm(T, v):
 
 # ------------------------------------------------------------------------------------ config.utils
 def cases_utils(tier):
-    for n in (1, 2, 3):
+    for n in (1, 2, 3) + ((4, 5) if tier == "thorough" else ()):
         yield "normalize/n%d" % n, {"what": "normalize", "n": n}
     for n, size in ((1, 1), (1, 3), (3, 3), (2, 3), (1, 0)):
         yield "broadcast_1d/n%d-size%d" % (n, size), {"what": "broadcast_1d", "n": n, "size": size}
@@ -381,7 +381,7 @@ def scn_validators(T, case):
 
 # ------------------------------------------------------------------------------------ bounded: attack every reachable attribute of really validated configurations
 def cases_native(tier):
-    for i in range(8 if tier == "quick" else 40):
+    for i in range(8 if tier == "quick" else 120):
         yield "generated-%d" % i, {"i": i, "__concrete_only__": True}
 
 
